@@ -57,6 +57,27 @@ func ruleShortCircuitLazy(p *Program, r *Report) {
 					}
 				}
 			}
+			// or the evaluated operand itself is chosen by the first operand's value: the receiver is a phi whose
+			// incoming edges are the two sides of a branch on that value (`branch := b; if v { branch = a }; branch.Eval`)
+			if ph, isPhi := e.Call.Value.(*ssa.Phi); isPhi && v0 != nil && !lazy {
+				if id := ph.Block().Idom(); id != nil {
+					if iff, isIf := id.Instrs[len(id.Instrs)-1].(*ssa.If); isIf && DependsOn(iff.Cond, func(x ssa.Value) bool { return x == ssa.Value(v0) }) {
+						sel := true
+						for _, pr := range ph.Block().Preds {
+							if pr != id && !(id.Succs[0].Dominates(pr) || id.Succs[1].Dominates(pr)) {
+								sel = false
+							}
+						}
+						distinct := map[ssa.Value]bool{}
+						for _, ed := range ph.Edges {
+							distinct[ed] = true
+						}
+						if sel && len(distinct) == len(ph.Edges) {
+							lazy = true
+						}
+					}
+				}
+			}
 			r.Check(lazy && InstrDominates(first, e), fmt.Sprintf("lazy@%s~%d", tn, n), "evaluated only when selected by the first operand's value", fmt.Sprintf("%s.Eval evaluates an operand that the value of the first operand did not select: `false && f()` / `cond ? a : b` would evaluate (and fail in) the branch it must skip", tn), e.Pos())
 		}
 	}
